@@ -77,7 +77,7 @@ func main() {
 		},
 		Post: func(c *ev.Check, outs []*run.Outcome) {
 			for _, k := range []string{"agree.raw", "agree.client", "agree.bits_set", "agree.banned_slots", "agree.servers_in_reply", "agree.migration_in_reply",
-				"refusal.raw", "refusal.client", "tamper.bitflip", "tamper.truncate", "tamper.extend_adjusted", "tamper.resign_otherkey",
+				"refusal.raw", "refusal.client", "agree.burst", "agree.client_relayed", "tamper.bitflip", "tamper.truncate", "tamper.extend_adjusted", "tamper.resign_otherkey",
 				"accepted.time_within", "rejected.time_outside", "rejected.devkey", "rejected.entry_sig", "rejected.mig_outer", "rejected.mig_inner",
 				"fullround.rejected_unchanged", "fullround.accepted", "states.offset_0", "states.offset_2016", "states.offset_4032"} {
 				c.Require(k, 1)
@@ -372,6 +372,7 @@ type st struct {
 	model  []refenc.AuthServer // what the GCA posted, in the server's merge order
 	mig    *refenc.Migration   // order posted for A (nil: none)
 	cA     *client.Client
+	cB     *client.Client
 	dirA   string
 	label  string
 	m      *mitm
@@ -466,6 +467,13 @@ func (s *st) agreeRaw(dev *drv.Dev, stage string) (refenc.SyncReply, bool) {
 			s.r.Count("discarded_slow_attempts", 1)
 			continue
 		}
+		if inc == "" && len(probs) > 0 && probs[0].key != "reply-malformed" && refenc.Verify(s.Key.Pub, r.SignedPart, r.ServerSig) {
+			// complete, validly signed reply with wrong content: final
+			for _, p := range probs {
+				s.r.Violation(p.key, p.msg, p.rp)
+			}
+			return rep, false
+		}
 		fails++
 		last, lastInc = probs, inc
 	}
@@ -480,7 +488,6 @@ func (s *st) agreeRaw(dev *drv.Dev, stage string) (refenc.SyncReply, bool) {
 }
 
 func (s *st) agreeRawOnce(dev *drv.Dev, stage string) (refenc.SyncReply, []problem, string) {
-	var probs []problem
 	var req [4]byte
 	binary.LittleEndian.PutUint32(req[:], dev.ID)
 	run.Op("raw sync dev=%d stage=%s", dev.ID, stage)
@@ -491,6 +498,21 @@ func (s *st) agreeRawOnce(dev *drv.Dev, stage string) (refenc.SyncReply, []probl
 	if err != nil {
 		return refenc.SyncReply{}, nil, "raw sync failed: " + err.Error()
 	}
+	return s.judgeBytes(dev, stage, raw, snap, t0, t1)
+}
+
+// authentic: the bytes are a complete frame carrying a valid signature of the
+// server. What such a reply says cannot be an artefact of a slow machine or a
+// broken connection, so a disagreement found in it is final at once.
+func authentic(raw []byte, serverKey [32]byte) bool {
+	rep, refused, err := refenc.ParseSyncReply(raw)
+	return err == nil && !refused && refenc.Verify(serverKey, rep.SignedPart, rep.ServerSig)
+}
+
+// judgeBytes compares one raw reply for dev with the snapshot and the posts.
+func (s *st) judgeBytes(dev *drv.Dev, stage string, raw []byte, snap *server.VerifSnap, t0, t1 int64) (refenc.SyncReply, []problem, string) {
+	var probs []problem
+	var err error
 	s.r.Eval(1)
 	s.r.Count("agree.raw", 1)
 	s.r.Max("max.reply_len", int64(len(raw)))
@@ -658,6 +680,104 @@ func (s *st) agree(stage string) (refenc.SyncReply, bool) {
 	return rep, ok
 }
 
+// alternate: many syncs of the two devices in turn and in bursts on the one
+// live server. Every reply is judged like any other genuine reply (whatever a
+// reply for one device carries must be that device's data, whichever request
+// the server answered before), raw and through the real client parser (over
+// the transparent relay, so that the bytes the parser saw are known).
+func (s *st) alternate(stage string, rounds int) {
+	devs := []*drv.Dev{s.A, s.B}
+	clis := []*client.Client{s.cA, s.cB}
+	for i := 0; i < rounds; i++ {
+		for k, dev := range devs {
+			if _, ok := s.agreeRaw(dev, fmt.Sprintf("%s/alt%d", stage, i)); !ok {
+				return
+			}
+			if i%4 != k {
+				continue
+			}
+			// the real parser on a relayed, unmodified reply
+			fails := 0
+			for attempt := 0; attempt < 9 && fails < 3; attempt++ {
+				snap := s.S.VerifSnapshot(true)
+				t0 := time.Now().Unix()
+				d := s.deliverWith(clis[k], variant{class: "relay_genuine", pos: i})
+				t1 := time.Now().Unix()
+				if !d.relayed {
+					s.r.Count("discarded_slow_attempts", 1)
+					continue
+				}
+				ref, probs, inc := s.judgeBytes(dev, stage+"/alt-relayed", d.in, snap, t0, t1)
+				if inc == "" && len(probs) > 0 && authentic(d.in, s.Key.Pub) {
+					for _, p := range probs {
+						s.r.Violation(p.key, p.msg, p.rp)
+					}
+					return
+				}
+				s.r.Count("agree.client_relayed", 1)
+				if d.err == nil {
+					if inc == "" && len(probs) == 0 {
+						if df := compareParse(ref, d.off, d.bf, d.ngca, d.nid, d.srv); df != "" {
+							s.r.Violationf("client-parse-differs-from-reference", s.replay(map[string]interface{}{"stage": stage, "dev": dev.ID, "reply": hx(d.in)}), "client parse of a relayed genuine reply differs from the reference parse: %s", df)
+							return
+						}
+					}
+					break
+				}
+				if d.slow || inc != "" || len(probs) > 0 {
+					s.r.Count("discarded_slow_attempts", 1)
+					continue
+				}
+				fails++
+				if fails >= 3 {
+					s.r.Violationf("client-parser-rejects-genuine", s.replay(map[string]interface{}{"stage": stage, "dev": dev.ID, "reply": hx(d.in)}), "the client parser rejected a relayed genuine reply that the reference finds correct (3 attempts): %v", d.err)
+					return
+				}
+			}
+		}
+	}
+	// burst: several connections at once
+	type got struct {
+		dev *drv.Dev
+		raw []byte
+		err error
+	}
+	snap := s.S.VerifSnapshot(true)
+	t0 := time.Now().Unix()
+	res := make(chan got, 64)
+	var wg sync.WaitGroup
+	for g := 0; g < 8; g++ {
+		wg.Add(1)
+		go func(g int) {
+			defer wg.Done()
+			for i := 0; i < 6; i++ {
+				dev := devs[(g+i)%2]
+				var req [4]byte
+				binary.LittleEndian.PutUint32(req[:], dev.ID)
+				raw, err := s.SyncRaw(req[:])
+				res <- got{dev, raw, err}
+			}
+		}(g)
+	}
+	wg.Wait()
+	close(res)
+	t1 := time.Now().Unix()
+	for x := range res {
+		if x.err != nil || !authentic(x.raw, s.Key.Pub) {
+			s.r.Count("burst.unusable", 1) // transport trouble decides nothing; complete replies are judged
+			continue
+		}
+		_, probs, inc := s.judgeBytes(x.dev, stage+"/burst", x.raw, snap, t0, t1)
+		s.r.Count("agree.burst", 1)
+		if inc == "" && len(probs) > 0 {
+			for _, p := range probs {
+				s.r.Violation(p.key, p.msg, p.rp)
+			}
+			return
+		}
+	}
+}
+
 // refusals: oracle (iii).
 func (s *st) refusals(dir string) {
 	unknown := uint32(5000 + s.rng.Intn(1000))
@@ -758,13 +878,15 @@ type delivery struct {
 }
 
 // deliver runs the real client parser against the relay once.
-func (s *st) deliver(v variant) delivery {
+func (s *st) deliver(v variant) delivery { return s.deliverWith(s.cA, v) }
+
+func (s *st) deliverWith(c *client.Client, v variant) delivery {
 	var d delivery
 	s.m.set(v.mut)
 	n0 := s.m.doneCount()
 	run.Op("tamper class=%s pos=%d", v.class, v.pos)
 	t := time.Now()
-	d.off, d.bf, d.ngca, d.nid, d.srv, d.err = s.cA.VerifServerSync(client.GCAServer{Location: "127.0.0.1", TcpPort: s.m.Port}, glow.PublicKey(s.Key.Pub), glow.PublicKey(s.GCA.Pub))
+	d.off, d.bf, d.ngca, d.nid, d.srv, d.err = c.VerifServerSync(client.GCAServer{Location: "127.0.0.1", TcpPort: s.m.Port}, glow.PublicKey(s.Key.Pub), glow.PublicKey(s.GCA.Pub))
 	d.slow = time.Since(t) > slowCall
 	d.in, d.out, d.relayed, d.relayErr = s.m.waitDone(n0)
 	return d
@@ -1151,6 +1273,29 @@ func (s *st) variants(genuine []byte, full bool) (vs []variant, sample []variant
 				pick("entry")
 			}
 		}
+		// a forged second record that carries a copy of the genuine record's signature
+		for i := 0; i < 4; i++ {
+			i := i
+			add("valid.entry_dup_sig_reused", i, mustReject, rebuilt(s.Key.Priv, func(r *refenc.SyncReply) {
+				if len(r.Servers) == 0 {
+					r.Servers = append(r.Servers, s.entry(s.GCA))
+				}
+				d := r.Servers[i%len(r.Servers)] // signature bytes stay
+				d.Banned = !d.Banned
+				if i%2 == 1 {
+					d.Banned = true
+					d.Location, _ = deadLocation(rng, 3)
+					d.TCP++
+				}
+				r.Servers = append(r.Servers, d)
+			}))
+			if i == 1 {
+				pick("entry")
+			}
+		}
+		// an "order" that names the device's own GCA and carries no signature
+		add("valid.mig_to_current_unsigned", 0, mustReject, rebuilt(s.Key.Priv, func(r *refenc.SyncReply) { r.NewGCA = s.GCA.Pub; r.NewID = 666 }))
+		pick("mig")
 		add("valid.entry_added_foreign", 0, mustReject, rebuilt(s.Key.Priv, func(r *refenc.SyncReply) { r.Servers = append(r.Servers, s.entry(other)) }))
 		// authentic variations
 		add("valid.entry_added_gca", 0, mustAccept, rebuilt(s.Key.Priv, func(r *refenc.SyncReply) { r.Servers = append(r.Servers, s.entry(s.GCA)) }))
@@ -1224,6 +1369,24 @@ func (s *st) variants(genuine []byte, full bool) (vs []variant, sample []variant
 					d = d.Signed(s.GCA.Priv)
 				default:
 					rng.Read(d.Sig[:])
+				}
+				r.Servers = append(r.Servers, d)
+				r.MigSig = order(r).Signed(s.GCA.Priv).Sig
+			}))
+			if i == 0 {
+				pick("mig")
+			}
+		}
+		for i := 0; i < 3; i++ {
+			i := i
+			add("valid.mig_dup_sig_reused", i, mustReject, rebuilt(s.Key.Priv, func(r *refenc.SyncReply) {
+				if len(r.Servers) == 0 {
+					r.Servers = append(r.Servers, s.entry(s.G2))
+				}
+				d := r.Servers[i%len(r.Servers)]
+				d.Banned = !d.Banned
+				if i > 0 {
+					d.UDP++
 				}
 				r.Servers = append(r.Servers, d)
 				r.MigSig = order(r).Signed(s.GCA.Priv).Sig
@@ -1510,6 +1673,21 @@ func child(b run.Batch, r *ev.Result) {
 		return
 	}
 	defer func() { closeClient(s.cA) }()
+	dirB := filepath.Join(b.Dir, "cliB")
+	defer os.RemoveAll(dirB)
+	envB := drv.ClientEnv{Dir: dirB, Key: s.B.Key, GCA: s.GCA.Pub, ShortID: s.B.ID, LastSync: drv.FreshSyncStamp(),
+		Servers: []refenc.MapEntry{{Pub: s.Key.Pub, Location: "127.0.0.1", TCP: s.TCP, UDP: s.UDP}}}
+	if fail(envB.Write()) {
+		return
+	}
+	if s.cB, err = drv.StartClient(dirB); fail(err) {
+		return
+	}
+	defer func() { closeClient(s.cB) }()
+	if s.m, err = newMITM(fmt.Sprintf("127.0.0.1:%d", s.TCP)); fail(err) {
+		return
+	}
+	defer s.m.Close()
 
 	// ---- drive the server into the state, checking agreement on the way
 	s.agree("empty")
@@ -1571,6 +1749,15 @@ func child(b run.Batch, r *ev.Result) {
 		s.mig = &m
 	}
 	_, ok := s.agree("final")
+	if ok && slice == 0 {
+		nAlt := 20
+		if full {
+			nAlt = 40
+		}
+		before := r.NumViolations()
+		s.alternate("final", nAlt)
+		ok = r.NumViolations() == before
+	}
 	if !ok {
 		return // the genuine reply is already wrong; tampering it decides nothing
 	}
@@ -1586,10 +1773,6 @@ func child(b run.Batch, r *ev.Result) {
 		r.Inconc("reference builder does not reproduce the genuine reply byte for byte; tamper classes would be unsound")
 		return
 	}
-	if s.m, err = newMITM(fmt.Sprintf("127.0.0.1:%d", s.TCP)); fail(err) {
-		return
-	}
-	defer s.m.Close()
 	vs, sample := s.variants(genuine, full)
 	for i, v := range vs {
 		if i%of != slice {
